@@ -426,8 +426,19 @@ func mutatePipe(g *impGen, o *gen.Out, c pipeCfg) pipeCfg {
 	for m := 0; m < muts; m++ {
 		switch r.Pick(2, 2, 4, 3, 2, 2, 2, 1, 5) {
 		case 0:
-			n.desc = (n.desc + 1) % 3
-			o.Count("mut=pl-desc")
+			if r.Chance(2, 5) {
+				// rename the pipeline, or rename it back (two names per pipeline: <id> and <id>+1000): a chain x -> y -> x only
+				// converges if the name index releases the old name at every rename (seeded change C15_7)
+				if n.name == n.id {
+					n.name = n.id + 1000
+				} else {
+					n.name = n.id
+				}
+				o.Count("mut=pl-name")
+			} else {
+				n.desc = (n.desc + 1) % 3
+				o.Count("mut=pl-desc")
+			}
 		case 1:
 			n.dplug, n.dset, n.ws, n.thr = 1, r.Range(1, 3), r.Range(2, 4), r.Range(0, 1)
 			o.Count("mut=pl-dlq")
